@@ -365,13 +365,9 @@ func (dq *Deque[T]) addAfter(value T, after *element[T]) error {
 	it.prev.next = it
 	it.next.prev = it
 
-	if after.isRoot() {
-		dq.nfront.Signal()
-	}
-	if after.prev.isRoot() {
-		dq.nback.Signal()
-	}
-	dq.updates.Signal()
+	dq.nfront.Broadcast()
+	dq.nback.Broadcast()
+	dq.updates.Broadcast()
 	return nil
 }
 
@@ -384,12 +380,8 @@ func (dq *Deque[T]) pop(it *element[T]) (out T, _ bool) {
 		return out, false
 	}
 
-	if it.prev.isRoot() {
-		defer dq.nfront.Signal()
-	}
-	if it.next.isRoot() {
-		defer dq.nback.Signal()
-	}
+	defer dq.nfront.Broadcast()
+	defer dq.nback.Broadcast()
 	defer dq.updates.Broadcast()
 
 	dq.tracker.remove()
